@@ -11,6 +11,7 @@
 import SlicecVerif.Lemmas.Request
 import SlicecVerif.Lemmas.RequestContent
 import SlicecVerif.Lemmas.RequestFromVal
+import SlicecVerif.Lemmas.RequestBridge
 
 namespace Slicec.C08
 
@@ -419,6 +420,152 @@ theorem resolved_links_exist (fs : List ReqFile) (hg : AllResolve fs = true) (se
       convLink (buildTable (programOf fs)) selfKey id = sb id) :=
   ⟨fun n hf hk => resolved_link_entity fs hg selfKey id n hf hk, unresolved_link_verbatim _ selfKey id⟩
 
+
+/-! ## the guard follows from acceptance by the compiler model
+
+`validate P` (Model/Validate.lean, C04) is the list of error codes of the whole pipeline: parse-time checks → attribute
+patching → type-reference resolution (C03's `resolveNamed` on every written name, nested ones and alias targets included) →
+cycle gate → redefinition scan → validating visitor; `validate P = []` = "the compiler model accepts `P`".
+Three things `AllResolve` asks for are NOT consequences of `validate P = []` and stay explicit, decidable hypotheses (each is
+shown to be needed by a program in `Slicec.C08Demo`, Lemmas/RequestBridge.lean):
+
+* `ParserShaped P` — a module declaration names a module (the grammar demands it; the abstract syntax does not) and every
+  interface base is written as a name (a keyword or anonymous type as base is an E017 of the PARSER, `construct_interface`,
+  which `validate` does not model);
+* `DescentWithin P` — **the descent bound**: on every written type reference, with aliases replaced by their targets, the
+  fuel `elabFuel = 64` of the converter model is not exhausted (at most 31 nested anonymous types). `elabFuel` is a constant
+  of the MODEL — the Rust converter recurses without bound and the compiler accepts deeper types
+  (`C08Demo.deep_accepted_not_within`: 32 nested sequences) — so it cannot follow from acceptance. It also excludes what
+  the alias gate of `detect_cycles` rejects (`typealias A = Sequence<A>`, E019): that gate is C05's `aliasGateErrors` and is not
+  a phase of `validate` (`C08Demo.aliasLoop_accepted_not_within`). What acceptance DOES give, once C05's gate is added
+  (`validate P = []` and `Cyc.aliasGateErrors P = []`), is that the descent is finite and linear in the program size
+  (`accepted_descent_is_bounded`: `2 d + 2 n + 5` units); so `DescentWithin` follows from a purely syntactic size condition
+  (`NestingSmall`, `descent_bound_from_alias_gate`), and only the constant 64 stands between acceptance and the guard. -/
+
+/-- (c) **"module declaration is required".** In a program the compiler model accepts, a file without module declaration
+    has no definitions. -/
+theorem definitions_need_a_module (P : Program) (hacc : validate P = []) (f : SFile) (hf : f ∈ P) (hm : f.module = none) :
+    f.defs = [] :=
+  accepted_moduleRequired P hacc f hf hm
+
+/-- (a) **Every written name of an accepted program resolves, whatever the position.** For every definition of every file:
+    each named reference written in a field / parameter / return-member / enumerator-field type or in an alias target — at
+    any depth inside sequences, dictionaries and results — resolves (`resolveNamed … = .ok …`) in a type position from the
+    module scope of its file; and every base written as a name resolves to a node, in an interface position. -/
+theorem written_names_resolve (P : Program) (hacc : validate P = []) (f : SFile) (hf : f ∈ P) (d : Def) (hd : d ∈ f.defs) :
+    (∀ r ∈ (Validate.defVisitedTRefs d).flatMap Validate.subRefsT, ∀ id, r.ty = .named id →
+      ∃ v, resolveNamed (buildTable P) .type id f.modPath = .ok v) ∧
+    (∀ doc attrs name bases ops, d = .iface doc attrs name bases ops → ∀ b ∈ bases, ∀ id, b.ty = .named id →
+      ∃ n extra, resolveNamed (buildTable P) .interface id f.modPath = .ok (.node n, extra)) := by
+  refine ⟨accepted_refsOK P hacc f hf d hd, ?_⟩
+  intro doc attrs name bases ops hdef b hb id hid
+  subst hdef
+  obtain ⟨v, hv⟩ := accepted_basesOK P hacc f hf doc attrs name bases ops hd b hb id hid
+  obtain ⟨n, extra, rfl⟩ := resolveNamed_interface_node _ _ _ _ hv
+  exact ⟨n, extra, hv⟩
+
+/-- (a) **The way back through an alias.** When a name resolves — directly or through a chain of aliases — to a written
+    type expression `e` with module scope `s` (what the converter then descends into), `e` is the target of an alias
+    definition of a file of the program whose module scope is `s`; in an accepted program every name written inside `e`
+    therefore resolves from `s` as well. -/
+theorem alias_target_is_a_site (P : Program) (hacc : validate P = []) (w : Want) (id scope : String) (e : TyExpr) (s : String)
+    (extra : List Attr) (h : resolveNamed (buildTable P) w id scope = .ok (.expr e s, extra)) :
+    (∃ f ∈ P, ∃ doc attrs name a o, Def.alias doc attrs name (.mk a e o) ∈ f.defs ∧ s = f.modPath) ∧
+    (∀ r ∈ Validate.subRefsE e, ∀ id', r.ty = .named id' → ∃ v, resolveNamed (buildTable P) .type id' s = .ok v) :=
+  ⟨resolveNamed_expr_origin P w id scope e s extra h,
+   alias_target_refsOK P (fun f hf d hd => accepted_refsOK P hacc f hf d hd) w id scope e s extra h⟩
+
+/-- (a) + (b), for EVERY descent budget: in an accepted program, a written type reference of a definition on which a budget
+    `fuel` is not exhausted (`trefWithin`) is converted with that budget without any fallback (`trefResolves`: every name on
+    the way resolves to a node or, through aliases, to a written type that converts without fallback). The constant
+    `elabFuel` plays no role here. -/
+theorem accepted_reference_converts (P : Program) (hacc : validate P = []) (f : SFile) (hf : f ∈ P) (d : Def) (hd : d ∈ f.defs)
+    (r : TRef) (hr : r ∈ Validate.defVisitedTRefs d) (fuel : Nat)
+    (hw : trefWithin (buildTable P) f.modPath fuel r = true) : trefResolves (buildTable P) f.modPath fuel r = true := by
+  have hP := fun f hf d hd => accepted_refsOK P hacc f hf d hd
+  refine (resolves_of_within P hP fuel).1 f.modPath r ((hP f hf d hd).sub ?_) hw
+  intro x hx
+  exact List.mem_flatMap.mpr ⟨r, hr, hx⟩
+
+/-- (b) what the descent bound means where no alias of an anonymous type is involved: a reference whose written nesting of
+    sequences / dictionaries / results is at most 31 stays within `elabFuel`; more budget never hurts. -/
+theorem descent_bound_is_nesting_31 (t : Table) (scope : String) (r : TRef) (hn : trefNoAliasExpr t scope r = true)
+    (hd : r.nesting ≤ 31) : trefWithin t scope elabFuel r = true :=
+  (within_of_nesting t scope elabFuel).1 r hn (by simp only [elabFuel]; omega)
+
+/-- (b) **With C05's alias gate, the descent of an accepted program is bounded by its size.** If the compiler model accepts
+    `P` and the alias gate of `detect_cycles` (C05's `Cyc.aliasGateErrors`: `revisits_anonymous_type` on the graph of
+    anonymous types, `alias_gate_reports_iff`) reports nothing, then for EVERY written type reference `r` — wherever it
+    stands, whatever it names — the converter's descent on the flattened type needs at most `2 d + 2 n + 5` units, where
+    `d = r.nesting` is the written nesting of anonymous types in `r` and `n = anonCount P` the number of anonymous types
+    written in the alias definitions of `P`: the descent follows a path of the graph of anonymous types, on which — the gate
+    being silent — no node occurs twice. (Without the gate: `typealias A = Sequence<A>` is accepted by `validate` and no
+    budget suffices.) -/
+theorem accepted_descent_is_bounded (P : Program) (hacc : validate P = []) (hgate : Cyc.aliasGateErrors P = [])
+    (scope : String) (r : TRef) : trefWithin (buildTable P) scope (2 * r.nesting + 2 * anonCount P + 5) r = true :=
+  accepted_gate_within P hacc hgate scope r
+
+/-- … hence the descent bound of the converter model follows from acceptance, the alias gate and a syntactic size condition:
+    `2 d + 2 n + 5 ≤ elabFuel` for every written reference of a visited position (`NestingSmall`, decidable without any
+    name resolution). -/
+theorem descent_bound_from_alias_gate (P : Program) (hacc : validate P = []) (hgate : Cyc.aliasGateErrors P = [])
+    (hsmall : NestingSmall P = true) : DescentWithin P = true :=
+  descentWithin_of_gate P hacc hgate hsmall
+
+/-- **The bridge: compiled programs resolve.** For the list of files the driver builds from a program `P` (file `i` under the
+    path given for it, a source file unless `i` is among the reference files): if the compiler model accepts `P`
+    (`validate P = []`), `P` is shaped as the parser shapes it and its flattened types stay within the descent bound of the
+    converter model, then the guard `AllResolve` of the three theorems above holds. -/
+theorem compiled_programs_resolve (pathOf : Nat → String) (refs : List Nat) (P : Program)
+    (hacc : validate P = []) (hshape : ParserShaped P = true) (hdepth : DescentWithin P = true) :
+    AllResolve (reqFilesOf pathOf refs P) = true := by
+  apply allResolve_of_accepted <;> rw [programOf_reqFilesOf] <;> assumption
+
+/-- the same for any list of compiled files (any paths, any source/reference split, any order) -/
+theorem compiled_files_resolve (fs : List ReqFile) (hacc : validate (programOf fs) = [])
+    (hshape : ParserShaped (programOf fs) = true) (hdepth : DescentWithin (programOf fs) = true) : AllResolve fs = true :=
+  allResolve_of_accepted fs hacc hshape hdepth
+
+/-- the bridge with C05's alias gate in place of the resolution-dependent descent hypothesis: accepted by `validate`, passed
+    by the alias gate, shaped as the parser shapes it, and syntactically small (`NestingSmall`) ⇒ `AllResolve` -/
+theorem compiled_programs_resolve_gate (pathOf : Nat → String) (refs : List Nat) (P : Program)
+    (hacc : validate P = []) (hgate : Cyc.aliasGateErrors P = []) (hshape : ParserShaped P = true)
+    (hsmall : NestingSmall P = true) : AllResolve (reqFilesOf pathOf refs P) = true :=
+  compiled_programs_resolve pathOf refs P hacc hshape (descentWithin_of_gate P hacc hgate hsmall)
+
+/-- `named_ids_exist` with "the program is accepted by the compiler model" in place of `AllResolve`. -/
+theorem named_ids_exist_of_accepted (mode : DocMode) (fs : List ReqFile) (srcs refs : List SliceFileV)
+    (h : convert mode fs = some (srcs, refs)) (hacc : validate (programOf fs) = [])
+    (hshape : ParserShaped (programOf fs) = true) (hdepth : DescentWithin (programOf fs) = true) :
+    ∀ f ∈ srcs ++ refs, ∀ s ∈ f.contents,
+      (∀ r ∈ s.trefs, ∀ id, r.typeId = .named id →
+        (∃ p ∈ Prim.all, id = sb p.kw) ∨ EntityIn (srcs ++ refs) ["struct", "enum", "custom"] id) ∧
+      (∀ v, s = .interface v → ∀ b ∈ v.bases, EntityIn (srcs ++ refs) ["interface"] b) :=
+  named_ids_exist mode fs srcs refs h (compiled_files_resolve fs hacc hshape hdepth)
+
+/-- `resolved_links_exist` with acceptance in place of `AllResolve` — acceptance ALONE: of the guard only "no definition
+    outside a module" is used, which is the parse-time rule `moduleRequired` of `validate`. -/
+theorem resolved_links_exist_of_accepted (fs : List ReqFile) (hacc : validate (programOf fs) = []) (selfKey id : String) :
+    (∀ n, findNodeWithScope (buildTable (programOf fs)) id selfKey = some n →
+      n.kind ≠ .module ∧ n.kind ≠ .parameter ∧ n.kind ≠ .primitive →
+      convLink (buildTable (programOf fs)) selfKey id = sb n.key ∧
+      ∃ rf ∈ transmitted fs, EntityOf rf.file n.key n.kind n.ident) ∧
+    ((findNodeWithScope (buildTable (programOf fs)) id selfKey = none ∨
+      ∃ n, findNodeWithScope (buildTable (programOf fs)) id selfKey = some n ∧
+        (n.kind = .module ∨ n.kind = .parameter ∨ n.kind = .primitive)) →
+      convLink (buildTable (programOf fs)) selfKey id = sb id) :=
+  ⟨fun n hf hk => resolved_link_entity_accepted fs hacc selfKey id n hf hk, unresolved_link_verbatim _ selfKey id⟩
+
+/-- `content_faithful_decoded` (bytes → decoded value → `describe P`) with acceptance in place of `AllResolve`. -/
+theorem content_faithful_decoded_of_accepted (fs : List ReqFile) (srcs refs : List SliceFileV) (bs args : Bytes)
+    (hc : convert DocMode.current fs = some (srcs, refs)) (hacc : validate (programOf fs) = [])
+    (hshape : ParserShaped (programOf fs) = true) (hdepth : DescentWithin (programOf fs) = true)
+    (he : encodeRequest srcs refs = some bs) :
+    ∃ ss rs : List SVal, decodeCall CS "generateCode" 2 (bs ++ args) = .ok ([.list ss, .list rs], args) ∧
+      optMap fromValFile ss = some (describe .asDemanded fs true) ∧
+      optMap fromValFile rs = some (describe .asDemanded fs false) :=
+  content_faithful_decoded fs srcs refs bs args hc (compiled_files_resolve fs hacc hshape hdepth) he
+
 /-! ## non-vacuity -/
 
 /-- a request the encoder accepts, with an anonymous type, an optional tag and a comment (strings as byte literals) -/
@@ -492,6 +639,70 @@ example (hs : Gen.requestSkipsModuleless = true) :
       ¬ ((∃ p ∈ Prim.all, id = sb p.kw) ∨ EntityIn (srcs ++ refs) ["struct", "enum", "custom"] id) :=
   ⟨C08Demo.bad2_not_resolved, C08Demo.bad2_dangling _ hs⟩
 
+
+/-! ### acceptance by the compiler model -/
+
+/-- the two-file program is accepted by `validate`, shaped as the parser shapes it and within the descent bound: the
+    corollaries apply to it … -/
+example : validate (programOf C08Demo.files) = [] ∧ ParserShaped (programOf C08Demo.files) = true ∧
+    DescentWithin (programOf C08Demo.files) = true :=
+  ⟨C08Demo.demo_accepted, C08Demo.demo_shaped, C08Demo.demo_within⟩
+
+/-- … the guard follows (not evaluated: derived from acceptance) … -/
+example : AllResolve C08Demo.files = true :=
+  compiled_files_resolve C08Demo.files C08Demo.demo_accepted C08Demo.demo_shaped C08Demo.demo_within
+
+/-- … also in the form of the driver's file list (file 1 a reference file) … -/
+example : AllResolve (reqFilesOf (fun i => "f" ++ toString i ++ ".slice") [1] (programOf C08Demo.files)) = true :=
+  compiled_programs_resolve _ [1] _ C08Demo.demo_accepted C08Demo.demo_shaped C08Demo.demo_within
+
+/-- … and `named_ids_exist_of_accepted` gives, e.g., that the element type `M::S` of symbol 0 of the reference file is a
+    struct symbol of a transmitted file -/
+example : EntityIn ([C08Demo.convertedA] ++ [C08Demo.convertedB]) ["struct", "enum", "custom"] (sb "M::S") := by
+  have h := named_ids_exist_of_accepted .asDemanded C08Demo.files _ _ C08Demo.convert_files C08Demo.demo_accepted
+    C08Demo.demo_shaped C08Demo.demo_within
+    C08Demo.convertedB (by simp) (.sequenceType ⟨⟨.named (sb "M::S"), true, []⟩⟩) (by simp [C08Demo.convertedB])
+  rcases h.1 ⟨.named (sb "M::S"), true, []⟩ (by simp [SymbolV.trefs]) (sb "M::S") rfl with ⟨p, _, hp⟩ | h
+  · exfalso; revert p; simp only [C08Demo.sb_eq_data]; decide
+  · exact h
+
+/-- … and its descent bound also follows from C05's alias gate and its size (`d ≤ 1`, `n = 1`: 9 units of 64) -/
+example : DescentWithin (programOf C08Demo.files) = true :=
+  descent_bound_from_alias_gate _ C08Demo.demo_accepted C08Demo.demo_gate C08Demo.demo_small
+
+/-- `resolved_links_exist_of_accepted` on it: the link `{@link M::S}` in the comment of `N::T` travels as `M::S`, and the
+    struct is declared in a transmitted file -/
+example : convLink (buildTable (programOf C08Demo.files)) "N::T" "M::S" = sb "M::S" ∧
+    ∃ rf ∈ transmitted C08Demo.files, EntityOf rf.file "M::S" .struct "S" :=
+  (resolved_links_exist_of_accepted C08Demo.files C08Demo.demo_accepted "N::T" "M::S").1 C08Demo.nodeS C08Demo.find_S_in_T
+    (by decide)
+
+/-- `accepted_descent_is_bounded` on it: the field type `[cs::u] M::A?` of `T::y` (written nesting 0; one anonymous type is
+    written in alias definitions) is flattened within 2·0 + 2·1 + 5 = 7 units -/
+example : trefWithin (buildTable (programOf C08Demo.files)) "N" 7 (.mk [⟨"cs::u", []⟩] (.named "M::A") true) = true :=
+  accepted_descent_is_bounded _ C08Demo.demo_accepted C08Demo.demo_gate "N" (.mk [⟨"cs::u", []⟩] (.named "M::A") true)
+
+/-- **the descent bound is needed and does not follow from acceptance**: a struct whose field nests 32 sequences is accepted
+    by the compiler model (and by the real compiler), yet the converter model's descent is exhausted on it; 31 fit -/
+example : validate (programOf C08Demo.deep) = [] ∧ ParserShaped (programOf C08Demo.deep) = true ∧
+    DescentWithin (programOf C08Demo.deep) = false ∧ AllResolve C08Demo.deep = false ∧
+    trefWithin (buildTable (programOf C08Demo.deep)) "M" elabFuel (C08Demo.nestSeq 31) = true :=
+  C08Demo.deep_accepted_not_within
+
+/-- **`validate` has no alias gate**: `typealias A = Sequence<A>` passes every phase of `validate`; C05's model of the gate
+    reports it (E019), the descent never ends on it -/
+example : validate (programOf C08Demo.aliasLoop) = [] ∧ ParserShaped (programOf C08Demo.aliasLoop) = true ∧
+    Cyc.aliasGateErrors (programOf C08Demo.aliasLoop) = ["M::A"] ∧
+    DescentWithin (programOf C08Demo.aliasLoop) = false ∧ AllResolve C08Demo.aliasLoop = false :=
+  C08Demo.aliasLoop_accepted_not_within
+
+/-- **`ParserShaped` is needed**: `interface I : bool {}` and a module declaration without a name pass `validate` -/
+example : (validate (programOf C08Demo.primBase) = [] ∧ DescentWithin (programOf C08Demo.primBase) = true ∧
+      ParserShaped (programOf C08Demo.primBase) = false ∧ AllResolve C08Demo.primBase = false) ∧
+    (validate (programOf C08Demo.noName) = [] ∧ DescentWithin (programOf C08Demo.noName) = true ∧
+      ParserShaped (programOf C08Demo.noName) = false ∧ AllResolve C08Demo.noName = false) :=
+  C08Demo.shape_needed
+
 /-- implicit enumerator values: `P, Q = 5, R` are 0, 5, 6 -/
 example : enumValues none [⟨[], [], "P", none, none⟩, ⟨[], [], "Q", none, some ⟨false, 10, 5, false⟩⟩, ⟨[], [], "R", none, none⟩] =
     [0, 5, 6] := by decide
@@ -535,3 +746,16 @@ end Slicec.C08
 #print axioms Slicec.C08.attribute_verbatim
 #print axioms Slicec.C08.named_ids_exist
 #print axioms Slicec.C08.resolved_links_exist
+#print axioms Slicec.C08.definitions_need_a_module
+#print axioms Slicec.C08.written_names_resolve
+#print axioms Slicec.C08.alias_target_is_a_site
+#print axioms Slicec.C08.accepted_reference_converts
+#print axioms Slicec.C08.descent_bound_is_nesting_31
+#print axioms Slicec.C08.compiled_programs_resolve
+#print axioms Slicec.C08.compiled_files_resolve
+#print axioms Slicec.C08.named_ids_exist_of_accepted
+#print axioms Slicec.C08.resolved_links_exist_of_accepted
+#print axioms Slicec.C08.content_faithful_decoded_of_accepted
+#print axioms Slicec.C08.accepted_descent_is_bounded
+#print axioms Slicec.C08.descent_bound_from_alias_gate
+#print axioms Slicec.C08.compiled_programs_resolve_gate
